@@ -2216,8 +2216,9 @@ impl Lexer<'_> {
                 if is_valid_unicode_sas_name_start(c) || (!first_token && is_xid_continue(c)) {
                     // A macro string in place of macro identifier
                     // First checkpoint BEFORE consuming! See above why.
-                    // If we do not have a bug, it may not be set yet, so this call
-                    // is safe.
+                    // It may still be set by the previous part of the name if only
+                    // a macro comment separates the two (`a%*c;b`). This part takes over
+                    self.clear_checkpoint();
                     self.checkpoint();
 
                     // Consume as identifier, no reserved words here,
